@@ -218,6 +218,19 @@ def r3_type_args(repo):
                 ok = ok and len(comp) == 1 and src(comp[0].generators[0].iter) == "%s.type_args" % node and \
                     not comp[0].generators[0].ifs
                 msg = "explicit type arguments printed iff `node.type_args and not node.can_infer_type_args`: %s" % conds
+                if ok:
+                    # the rendered list must reach every produced text (with and without receiver)
+                    st_ = ifx[0]._parent
+                    while not isinstance(st_, ast.stmt):
+                        st_ = st_._parent
+                    tname = src(st_.targets[0]) if isinstance(st_, ast.Assign) else None
+                    fmts = [c for c in calls_in(m.node) if call_name(c) == "format" and
+                            isinstance(c._parent, ast.Assign) and src(c._parent.targets[0]) == "res"]
+                    missing = [c.lineno for c in fmts if tname not in
+                               {n.id for a in list(c.args) + [k.value for k in c.keywords] for n in ast.walk(a)
+                                if isinstance(n, ast.Name)}]
+                    ok = tname is not None and bool(fmts) and not missing
+                    msg += "; every text built for the call must include `%s` (missing in the format calls at lines %s)" % (tname, missing)
         obs.append(Ob("C12-R3", "%s:visit_func_call:type-args-printed-iff-carried" % lang, _w(m), ok, msg))
     return obs
 
@@ -734,6 +747,17 @@ def _v_groovy_closure_type(tree):
     x[0].test = V.parse_expr("not ret_type or ret_type == gt.Void")
 
 
+def _v_kotlin_args_only_with_receiver(tree):
+    f = V.find_def(tree, "KotlinTranslator.visit_func_call")
+    fm = [n for n in ast.walk(f) if V.is_call_named(n, "format") and isinstance(n.func.value, ast.Constant)
+          and n.func.value.value == "{}{}{}({})"]
+    if len(fm) != 1:
+        raise V.SkipVariant("formats")
+    c = fm[0]
+    c.func.value.value = "{}{}({})"
+    c.args = [a for a in c.args if ast.unparse(a) != "type_args"]
+
+
 def _t_rename(tree):
     f = V.find_def(tree, "KotlinTranslator.visit_class_decl")
     V.rename_local(f, "len_fields", "n_fields")
@@ -755,6 +779,7 @@ def variants():
         V.Variant("java: a visitor returns nothing", "src/translators/java.py", _v_java_no_return, {"C12-R6"}),
         V.Variant("groovy: visit_new skips its first child", "src/translators/groovy.py", _v_partial_visit, {"C12-R6"}),
         V.Variant("groovy: closure form decided by the inferred type", "src/translators/groovy.py", _v_groovy_closure_type, {"C12-R1"}),
+        V.Variant("kotlin: type arguments only printed for calls with a receiver", "src/translators/kotlin.py", _v_kotlin_args_only_with_receiver, {"C12-R3"}),
         V.Variant("twin: rename locals in Kotlin visit_class_decl", "src/translators/kotlin.py", _t_rename, None, twin=True),
         V.Variant("twin: whole tree reformatted by ast.unparse", None, None, None, twin=True),
     ]
